@@ -180,9 +180,13 @@ def listValS : List Val → Val
   | [] => .nil
   | xs => .list (Vals.ofList xs)
 
-theorem canonTy_named_list (n : String) (t : Ty) (vs : Vals) :
-    canonTy (.named n t) (.list vs) = canonTy t (.list vs) := by simp [canonTy]
-theorem canonTy_named_nil (n : String) (t : Ty) : canonTy (.named n t) .nil = canonTy t .nil := by simp [canonTy]
+theorem canonTy_named_list (n : String) (t : Ty) (vs : Vals) (h : n ≠ "RawMessage") :
+    canonTy (.named n t) (.list vs) = canonTy t (.list vs) := by
+  rw [canonTy]
+  all_goals (intros; exact absurd (by assumption) h)
+theorem canonTy_named_nil (n : String) (t : Ty) (h : n ≠ "RawMessage") : canonTy (.named n t) .nil = canonTy t .nil := by
+  rw [canonTy]
+  all_goals (intros; exact absurd (by assumption) h)
 theorem canonTy_slice_list (et : Ty) (vs : Vals) : canonTy (.slice et) (.list vs) = .list (canonTyList et vs) := by
   simp [canonTy]
 theorem canonTy_slice_nil (et : Ty) : canonTy (.slice et) .nil = .nil := by simp [canonTy]
@@ -201,7 +205,7 @@ theorem canonTy_repeated : ∀ (t et : Ty), isRepeated t = some et →
     · have h' : isRepeated t' = some et := by
         simpa only [isRepeated, unname, hn] using h
       obtain ⟨a, b⟩ := canonTy_repeated t' et h'
-      exact ⟨fun vs => by rw [canonTy_named_list, a], by rw [canonTy_named_nil, b]⟩
+      exact ⟨fun vs => by rw [canonTy_named_list _ _ _ hn, a], by rw [canonTy_named_nil _ _ hn, b]⟩
   | .bool, _, h | .int _, _, h | .f32, _, h | .f64, _, h | .str, _, h | .bytes, _, h | .any, _, h
   | .arr _ _, _, h | .ptr _, _, h | .map _ _, _, h | .struct _, _, h => by simp [isRepeated, unname] at h
 
